@@ -628,6 +628,10 @@ func fdsWsResponseLen() int {
 // ---- the direct monitor ------------------------------------------------------------------------------------------------------------
 
 func fdsDirect(seed uint64, tier string, args []string, w *bufio.Writer) {
+	if tier == "mmapchild" {
+		fdsMmapChild(w)
+		return
+	}
 	d := &fdsDirectState{w: w, counts: map[string]int{}}
 	fdsWarm()
 	r := newRng(seed)
@@ -1202,9 +1206,8 @@ func fdsDirect(seed uint64, tier string, args []string, w *bufio.Writer) {
 		})
 	}
 
-	if tier == "thorough" {
-		fdsMirroredRemapTrial(d)
-	}
+	// NewMirroredBuffer with the re-mapping failing (mapping-count exhaustion, in a child process)
+	fdsMirroredRemapTrial(d)
 
 	st := map[string]any{"fds_trials": d.counts, "fds_failures": d.fails}
 	js, _ := json.Marshal(st)
@@ -1439,5 +1442,5 @@ func fdsGcTrial(d *fdsDirectState, ioc *sonic.IO, kind string, r *rng) {
 	}
 }
 
-// fdsMirroredRemapTrial is filled in by fds_mmap.go when available; default: nothing.
+// fdsMirroredRemapTrial / fdsMmapChild: see fds_mmap.go.
 var fdsMirroredRemapTrial = func(d *fdsDirectState) {}
